@@ -146,12 +146,16 @@ def check_table(case):
 # ------------------------------------------------------------------ built-in costs
 
 
-COSTS = ["L2Cost", "GaussianVarCost", "GaussianCovCost"]
+COSTS = ["L2Cost", "GaussianVarCost", "GaussianCovCost", "L1Cost"]
 
 
 def make_cost(name):
     from skchange import costs
 
+    if name == "L1Cost":  # user-defined, data-dependent cost (sum of absolute deviations from the median)
+        from userdefs.scorers import L1Cost
+
+        return L1Cost()
     return getattr(costs, name)()
 
 
@@ -159,7 +163,7 @@ def make_cost(name):
 def builtin_cases(draw, tier):
     cost = draw(st.sampled_from(COSTS))
     p = draw(st.integers(1, 3 if cost != "GaussianCovCost" else 2))
-    min_size = {"L2Cost": 1, "GaussianVarCost": 2, "GaussianCovCost": p + 1}[cost]
+    min_size = {"L2Cost": 1, "L1Cost": 1, "GaussianVarCost": 2, "GaussianCovCost": p + 1}[cost]
     msl = draw(st.integers(min_size, min_size + 3))
     nmax = 40 if tier == "quick" else 100
     n = D.weighted(draw, [(1, st.just(2 * msl)), (6, st.integers(2 * msl, max(2 * msl, 24))),
@@ -275,7 +279,7 @@ FACETS = [
         name="builtin_costs",
         check=check_builtin,
         strategy=builtin_cases,
-        rule=("L2Cost/GaussianVarCost/GaussianCovCost on structured data (shifts, spikes, bumps; exact and float), "
+        rule=("L2Cost/GaussianVarCost/GaussianCovCost and a user-defined L1Cost on structured data (shifts, spikes, bumps; exact and float), "
               "msl from the cost's minimum size, n from 2msl, penalty scales incl. 0; "
               "non-trivial = >=1 changepoint AND the evaluated cost table satisfies the split inequality"),
         n_quick=480, n_thorough=8000, shards_quick=8, shards_thorough=16,
